@@ -68,7 +68,7 @@ def run(chk):
         for opt in ("max_n", "exact_n", "predetermined"):
             case = {"part": "GQR", "B": B.tolist(), "option": opt, "lin_idx": L, "n_sensors": N, "n_const_sensors": s, "all_sensors": A}
             try:
-                piv, steps = R.run_gqr(B, opt, L, A, N, s)
+                piv, steps = R.run_gqr(B, opt, L, A, N, s, reuse=(chk.evaluations % 2 == 1))
             except Exception as e:
                 chk.count("gqr-rejected:" + type(e).__name__)
                 continue
